@@ -1351,7 +1351,10 @@ def all_templates(tier, seed, with_where=True):
           continue
       elif cname not in ('root', 'two', 'three') and (pi + ci + seed) % 3:
         continue
-      root = assign_names(ctx(p(), P))
+      prim = p()
+      if cname == 'ref' and has_ref(prim):
+        continue   # references to values holding references are unsupported
+      root = assign_names(ctx(prim, P))
       yield root, None
       if not with_where or has_ref(root):
         continue
@@ -1652,13 +1655,18 @@ def drv_binding(tier, seed):
       ('float-then-float', 'Float()', 'f', 'pg.floatv(0.5, 1.5)'),
   ]
   for name, first, field, psrc in rebinds:
-    for keep_parent in (False, True):
-      code = (f"h = {psrc}\nfirst = pg.Dict(z=h, value_spec=pg.typing.Dict([('z', pg.typing.{first})]))\n"
-              + ('' if keep_parent else "h = first.z\nfirst = None\n")
-              + f'v = H({field}=h)\n')
+    for keep_parent in (False, True, None):
+      if keep_parent is None:
+        # Bound by a bare value spec: the very same object (no parent, hence no
+        # copy) is then bound to the field's spec.
+        code = f'h = {psrc}\npg.typing.{first}.apply(h)\nv = H({field}=h)\n'
+      else:
+        code = (f"h = {psrc}\nfirst = pg.Dict(z=h, value_spec=pg.typing.Dict([('z', pg.typing.{first})]))\n"
+                + ('' if keep_parent else "h = first.z\nfirst = None\n")
+                + f'v = H({field}=h)\n')
       wit = ('import pyglove as pg\nfrom bounded.c13_hyper import A, A2, B, H\n' + code
              + 't = pg.template(v)\nfor d in t.dna_spec().iter_dna():\n  t.decode(d)')
-      cid = f'bind.rebound/{name}' + ('.has-parent' if keep_parent else '')
+      cid = f'bind.rebound/{name}' + ('.has-parent' if keep_parent else ('.same-object' if keep_parent is None else ''))
       env = dict(_env())
       try:
         exec(code, env)  # pylint: disable=exec-used
